@@ -385,6 +385,7 @@ func worker(c *core.Ctx, args []string) {
 }
 
 func run(c *core.Ctx) {
+	partFanout(c)
 	bound := 2
 	if !c.Quick() {
 		bound = 3
@@ -425,6 +426,11 @@ func replay(c *core.Ctx, raw json.RawMessage) {
 		Choices  []int  `json:"choices"`
 	}
 	json.Unmarshal(raw, &cs)
+	var fc fanCase
+	if json.Unmarshal(raw, &fc) == nil && fc.Part == "fanout" {
+		runFan(c, fc)
+		return
+	}
 	sc := scenarios()[cs.Scenario]
 	sched.EnableFiles(sc.Files...)
 	x := sched.Run(cs.Choices, true, sc.Body)
